@@ -230,7 +230,8 @@ TRANSCODE_SPEC = '''ensures
 PROLOGUE = '''broadcast use input::axiom_input_of_slice, axiom_de_views, axiom_rd_has_input;
     let ghost log0 = out_log(&output);
     let ghost mut whole: Seq<u8> = Seq::empty();
-    let ghost mut is_slice = false;'''
+    let ghost mut is_slice = false;
+    let ghost mut made: nat = 0;'''
 AFTER_REST = '''proof { whole = rest@; is_slice = true; assert(whole.subrange(0, whole.len() as int) =~= whole); }'''
 AFTER_SPLIT = '''proof {
     // `next` is the first value of the old rest, `rest` what follows it
@@ -251,8 +252,10 @@ LOOP0_INV = '''invariant
         decreases rest@.len(),'''
 
 # C03 (reader path): the loop is left only when fill_buf reported that nothing is left -- no trailing byte is dropped
-LOOP1_INV = '''invariant true,
+# C05 / C03 (reader path): every deserializer created so far has been handed to the output before the reader is consulted again
+LOOP1_INV = '''invariant out_log(&output).len() == log0.len() + made,
         ensures br_at_eof(&r),'''
+AFTER_NEW = '''proof { made = made + 1; }'''
 
 ITEMS = M.ITEMS + [
     dict(raw=STANDINS),
@@ -269,6 +272,7 @@ ITEMS = M.ITEMS + [
                        loops=[dict(ordinal=0, kind='while', clauses=LOOP0_INV), dict(ordinal=1, kind='while', clauses=LOOP1_INV)],
                        inserts=[dict(after=r'let\s+mut\s+rest\s*=\s*&\s*\*\s*b\s*;', text=AFTER_REST),
                                 dict(after=r'rest\s*\.\s*split_at\s*\([^;]*;', text=AFTER_SPLIT),
+                                dict(after=r'rmp_serde\s*::\s*Deserializer\s*::\s*new\s*\([^;]*;', text=AFTER_NEW),
                                 dict(before=r'Ok\(\(\)\)\s*\}\s*$', text=AT_END)],
                        inserts_all=[dict(after=r'while\s[^{]*\{', text='broadcast use axiom_de_views, axiom_rd_has_input;', count=2)])),
 ]
